@@ -201,6 +201,26 @@ func init() {
 			runOracleHistory(rep, cfg, ops, int64(i), "", nil, nil)
 			rep.count("scenario:loaded-clean-pages-at-automatic-checkpoint", 1)
 		}
+		// directed: MarkDirty on pages of the committed state that the transaction never loaded (in place, with an
+		// overwrite page, next to pages written normally), commit, reopen: the contents stay (D35)
+		for i := 0; i < 6; i++ {
+			ops := []engine.Op{{Kind: "begin"}, {Kind: "alloc", N: 5}}
+			for k := 0; k < 5; k++ {
+				ops = append(ops, engine.Op{Kind: "setfull", P: k, Seed: 60 + k})
+			}
+			ops = append(ops, engine.Op{Kind: "commit"})
+			if i%2 == 1 {
+				ops = append(ops, engine.Op{Kind: "begin", WALLimit: 1000}, engine.Op{Kind: "setfull", P: 1, Seed: 70}, engine.Op{Kind: "commit"})
+			}
+			ops = append(ops, engine.Op{Kind: "begin", WALLimit: 1000}, engine.Op{Kind: "markdirty", P: 1})
+			if i%3 == 2 {
+				ops = append(ops, engine.Op{Kind: "setfull", P: 3, Seed: 71}, engine.Op{Kind: "markdirty", P: 2}, engine.Op{Kind: "flush"})
+			}
+			ops = append(ops, engine.Op{Kind: "commit"}, engine.Op{Kind: "verify"}, engine.Op{Kind: "reopen"}, engine.Op{Kind: "verify"})
+			cfg := engine.Config{PageSize: 1024, MaxSize: []uint64{0, 128 * 1024}[i%2], InitMetaArea: uint32(4 * (i % 2))}
+			runOracleHistory(rep, cfg, ops, int64(100+i), "", nil, nil)
+			rep.count("scenario:mark-dirty-without-load", 1)
+		}
 		for i := 0; i < n; i++ {
 			if rep.outOfTime() {
 				break
